@@ -356,27 +356,68 @@ func compareReaders[K comparable](c *Case, a api[K], r pdf.Getter, rootRef pdf.O
 		return fmt.Errorf("ExtractInMemory returned nil for a tree of %d entries", n)
 	}
 
-	// ---- All: every entry once, ascending
+	// ---- All: every entry once, ascending -- on every pass
+	// The value returned by All() is an ordinary iter.Seq2: ranging over it
+	// again (after a complete pass, or after a pass which stopped early)
+	// starts a new enumeration, as it does for the in-memory reader, whose
+	// behaviour the streaming reader has to agree with.  Each reader is
+	// ranged: fully and fully again over one sequence value; one entry, then
+	// fully; 65 entries (into the second leaf), then fully.
 	for _, rd := range []struct {
 		name string
 		t    reader[K]
 	}{{"ExtractFromFile", ff}, {"ExtractInMemory", im}} {
-		i := 0
-		for k, val := range rd.t.All() {
-			if i >= n {
-				return fmt.Errorf("%s.All yields more than the %d entries of the map (extra key %s)", rd.name, n, a.show(k))
+		// pass ranges over seq, stopping after limit entries if limit > 0,
+		// and compares what it gets with the model
+		pass := func(seq iter.Seq2[K, pdf.Object], what string, limit int) error {
+			want := n
+			if limit > 0 && limit < n {
+				want = limit
 			}
-			if k != keys[i] {
-				return fmt.Errorf("%s.All: entry %d has key %s, want %s", rd.name, i, a.show(k), a.show(keys[i]))
+			i := 0
+			for k, val := range seq {
+				if i >= n {
+					return fmt.Errorf("%s.All (%s) yields more than the %d entries of the map (extra key %s)", rd.name, what, n, a.show(k))
+				}
+				if k != keys[i] {
+					return fmt.Errorf("%s.All (%s): entry %d has key %s, want %s", rd.name, what, i, a.show(k), a.show(keys[i]))
+				}
+				if err := vt.EqObj(vals[i], val); err != nil {
+					return fmt.Errorf("%s.All (%s): value of key %s: %v", rd.name, what, a.show(k), err)
+				}
+				i++
+				if limit > 0 && i >= limit {
+					break
+				}
 			}
-			if err := vt.EqObj(vals[i], val); err != nil {
-				return fmt.Errorf("%s.All: value of key %s: %v", rd.name, a.show(k), err)
+			if i != want {
+				return fmt.Errorf("%s.All (%s) yielded %d entries, want %d of the map's %d", rd.name, what, i, want, n)
 			}
-			i++
+			return nil
 		}
-		if i != n {
-			return fmt.Errorf("%s.All yielded %d entries, the map has %d", rd.name, i, n)
+		seq := rd.t.All()
+		if err := pass(seq, "first pass", 0); err != nil {
+			return err
 		}
+		if err := pass(seq, "second pass over the same sequence value", 0); err != nil {
+			return err
+		}
+		for _, stop := range []int{1, 65} {
+			seq := rd.t.All()
+			if err := pass(seq, fmt.Sprintf("pass stopped after %d entries", stop), stop); err != nil {
+				return err
+			}
+			if err := pass(seq, fmt.Sprintf("full pass after a pass stopped after %d entries", stop), 0); err != nil {
+				return err
+			}
+		}
+	}
+	if n >= maxFan {
+		// from 64 entries on the root has /Kids
+		c.obs.flags["all-repeated-with-kids"] = true
+	}
+	if n > 65 {
+		c.obs.flags["all-stopped-in-second-leaf"] = true
 	}
 	if !imNil {
 		if len(data) != n {
